@@ -169,7 +169,7 @@ void splinetable<Alloc>::fit(const ::ndsparse& data,
 			                           i, order[i],
 			                           (penaltyOrder.size()>1?penaltyOrder[i]:penaltyOrder[0]),
 			                           (smoothing.size()>1?smoothing[i]:smoothing[0]),
-			                           i==monodim, penalty,
+			                           (monodim==no_monodim?-1:(int)monodim), penalty,
 			                           &cholmod_state);
 		}
 	}
